@@ -868,6 +868,7 @@ func c08Run(r *Run) {
 		// iterates target.GetMethods() and compares len(GetParams()) — in the function or in the
 		// package helpers it hands the method list to
 		iter, cmp, early := false, false, false
+		filtered := token.NoPos
 		for _, cf := range closure(npkg, fd) {
 			ast.Inspect(cf.Body, func(n ast.Node) bool {
 				switch x := n.(type) {
@@ -884,7 +885,13 @@ func c08Run(r *Run) {
 					}
 				case *ast.BinaryExpr:
 					if strings.Contains(exprStr(x.X), "GetParams") && strings.Contains(exprStr(x.Y), "GetParams") {
-						cmp = true
+						// both sides are the *declared* parameter count — len(m.GetParams()), possibly through a
+						// helper that returns exactly that — not a count filtered by optionality
+						if c08DeclaredCount(r, npkg, x.X, 0) && c08DeclaredCount(r, npkg, x.Y, 0) {
+							cmp = true
+						} else {
+							filtered = x.Pos()
+						}
 					}
 				}
 				return true
@@ -906,6 +913,8 @@ func c08Run(r *Run) {
 		})
 		if iter && cmp && !early {
 			r.ok(fk+"#all-methods-and-arity", fd.Pos(), "every method the target declares is required, with the same number of parameters")
+		} else if iter && !cmp && filtered != token.NoPos {
+			r.bad(fk+"#all-methods-and-arity", filtered, "the parameter counts compared are not the declared counts len(GetParams()) of the two methods but counts computed from them (optional or variadic parameters left out): `like` accepts methods whose declared signatures differ")
 		} else {
 			r.bad(fk+"#all-methods-and-arity", fd.Pos(), "the structural test does not iterate all target methods with a parameter-count comparison (or leaves the loop with true early)")
 		}
@@ -1167,4 +1176,55 @@ func c08WalksWithCallback(info *types.Info, fd *ast.FuncDecl) bool {
 		return !found
 	})
 	return found
+}
+
+// c08DeclaredCount: e is len(X.GetParams()), or a call of a module function all of whose returns are that
+// for one of its parameters.
+func c08DeclaredCount(r *Run, p *packages.Package, e ast.Expr, depth int) bool {
+	info := p.TypesInfo
+	c, ok := ast.Unparen(e).(*ast.CallExpr)
+	if !ok {
+		return false
+	}
+	if id, ok := ast.Unparen(c.Fun).(*ast.Ident); ok && id.Name == "len" && len(c.Args) == 1 {
+		if _, isBuiltin := info.Uses[id].(*types.Builtin); isBuiltin {
+			if ac, ok := ast.Unparen(c.Args[0]).(*ast.CallExpr); ok {
+				if se, ok := ast.Unparen(ac.Fun).(*ast.SelectorExpr); ok && se.Sel.Name == "GetParams" {
+					return true
+				}
+			}
+			// len(params) where the helper received the list itself
+			if _, ok := ast.Unparen(c.Args[0]).(*ast.Ident); ok && depth > 0 {
+				return true
+			}
+		}
+		return false
+	}
+	if depth >= 2 {
+		return false
+	}
+	cal := calleeFunc(info, c)
+	if cal == nil {
+		return false
+	}
+	hp, hd := r.declAnywhere(cal)
+	if hd == nil {
+		return false
+	}
+	n, all := 0, true
+	ast.Inspect(hd.Body, func(m ast.Node) bool {
+		switch x := m.(type) {
+		case *ast.FuncLit:
+			return false
+		case *ast.ForStmt, *ast.RangeStmt:
+			all = false // a count computed by a loop is not the declared length
+		case *ast.ReturnStmt:
+			n++
+			if len(x.Results) != 1 || !c08DeclaredCount(r, hp, x.Results[0], depth+1) {
+				all = false
+			}
+		}
+		return true
+	})
+	return all && n > 0
 }
